@@ -3,6 +3,8 @@ import inspect
 import numpy as np
 from scipy import ndimage
 
+from ..fit import FP_DEFAULT
+
 #: Valid keyword arguments for feature types
 VALID_FEATURE_TYPES = ["all", "binary", "continuous"]
 
@@ -15,7 +17,8 @@ class IndentationFeatures(object):
     @property
     def is_fitted(self):
         if self.is_valid:
-            return self.dataset.fit_properties["success"]
+            # "success" is only set once a fit has been performed
+            return self.dataset.fit_properties.get("success", False)
         else:
             return False
 
@@ -51,7 +54,8 @@ class IndentationFeatures(object):
 
     @property
     def datax_apr(self):
-        xaxis = self.dataset.fit_properties["x_axis"]
+        xaxis = self.dataset.fit_properties.get("x_axis",
+                                                FP_DEFAULT["x_axis"])
         seg = self.dataset["segment"] == 0
         x = self.dataset[xaxis][seg].copy()
         # Make sure everything is ok
@@ -60,7 +64,8 @@ class IndentationFeatures(object):
 
     @property
     def datay_apr(self):
-        yaxis = self.dataset.fit_properties["y_axis"]
+        yaxis = self.dataset.fit_properties.get("y_axis",
+                                                FP_DEFAULT["y_axis"])
         seg = self.dataset["segment"] == 0
         y = self.dataset[yaxis][seg].copy()
         return y
